@@ -98,7 +98,7 @@ func init() {
 				MaxCtrl: scale(th, 5, 10), GatedProb: 80, MaxBatch: 5}
 			return genProgram(t, "C02", pf, th)
 		},
-		Oracles: []oracleFn{oC02},
+		Oracles: []oracleFn{oC02, oC02Tune},
 		Foreign: []oracleFn{oCrash("*"), oDeadlock("C03"), oLivelock("C03")},
 		NonTrivial: func(ix *Index) (bool, []string) {
 			cl := classesOf(ix)
@@ -176,7 +176,9 @@ func init() {
 				Ops:     map[string]int{"add": 25, "addall": 8, "wait": 15, "result": 15, "gwait": 8, "drain": 2, "close": 5, "purge": 2, "release": 5, "yield": 3},
 				Ctrl:    map[string]int{"pause": 2, "resume": 3},
 				MaxCtrl: 3, GatedProb: 40, Outs: []int{OutVal, OutErr, OutPanicStr}, MaxBatch: 4}
-			return genProgram(t, "C05", pf, th)
+			c := genProgram(t, "C05", pf, th)
+			addCloseScenario(t, c, 5)
+			return c
 		},
 		Oracles: []oracleFn{oC05},
 		Foreign: []oracleFn{oCrash("*"), oDeadlock("C03"), oLivelock("C03")},
@@ -259,7 +261,9 @@ func init() {
 				Ops:     map[string]int{"addall": 30, "gconsume": 25, "gwait": 10, "gpending": 15, "purge": 4, "qclose": 3, "add": 4, "release": 4, "yield": 3},
 				Ctrl:    map[string]int{"pause": 2, "resume": 3},
 				MaxCtrl: 2, GatedProb: 20, Outs: []int{OutVal, OutVal, OutErr, OutPanicStr}, MaxBatch: scale(th, 5, 12)}
-			return genProgram(t, "C08", pf, th)
+			c := genProgram(t, "C08", pf, th)
+			addCloseScenario(t, c, 5)
+			return c
 		},
 		Oracles: []oracleFn{oC08},
 		Foreign: []oracleFn{oDeadlock("C03"), oLivelock("C03")},
@@ -330,29 +334,7 @@ func init() {
 				Ctrl:    map[string]int{"pause": 3, "resume": 4, "pausewait": 1},
 				MaxCtrl: 3, GatedProb: 30, Outs: []int{OutVal, OutVal, OutErr}, MaxBatch: 4}
 			c := genProgram(t, "C10", pf, th)
-			// queue-close scenarios: Close, then any mix of Purge / NumPending / Close again, then submissions
-			if rapid.IntRange(0, 3).Draw(t, "closescenario") == 0 {
-				ci := rapid.IntRange(1, len(c.Clients)-1).Draw(t, "closeclient")
-				q := rapid.IntRange(0, len(c.Cfg.Queues)-1).Draw(t, "closeq")
-				seq := []Op{{Op: "qclose", Q: q}}
-				for i := 0; i < rapid.IntRange(0, 2).Draw(t, "nbetween"); i++ {
-					seq = append(seq, Op{Op: pick(t, "between", []string{"purge", "qpending", "qclose", "yield"}), Q: q})
-				}
-				n := 5000
-				for i := 0; i < rapid.IntRange(1, 3).Draw(t, "nafter"); i++ {
-					n++
-					if rapid.Bool().Draw(t, "afterbatch") {
-						seq = append(seq, Op{Op: "addall", Q: q, G: 900 + i, Items: []Item{{N: n, ID: "c" + itoa(n)}, {N: n + 100, ID: "c" + itoa(n+100)}}})
-					} else {
-						seq = append(seq, Op{Op: "add", Q: q, It: &Item{N: n}})
-					}
-				}
-				pos := rapid.IntRange(0, len(c.Clients[ci])).Draw(t, "closepos")
-				ops := append([]Op{}, c.Clients[ci][:pos]...)
-				ops = append(ops, seq...)
-				ops = append(ops, c.Clients[ci][pos:]...)
-				c.Clients[ci] = ops
-			}
+			addCloseScenario(t, c, 4)
 			return c
 		},
 		Oracles: []oracleFn{oC10},
@@ -414,4 +396,38 @@ func dedupS(xs []string) []string {
 		}
 	}
 	return out
+}
+
+// addCloseScenario inserts (with probability 1/oneIn) a queue-close scenario into one client:
+// Close, then any mix of Purge / NumPending / Close again, then single and batch submissions.
+func addCloseScenario(t *rapid.T, c *Case, oneIn int) {
+	if len(c.Clients) < 2 || rapid.IntRange(0, oneIn-1).Draw(t, "closescenario") != 0 {
+		return
+	}
+	ci := rapid.IntRange(1, len(c.Clients)-1).Draw(t, "closeclient")
+	q := rapid.IntRange(0, len(c.Cfg.Queues)-1).Draw(t, "closeq")
+	seq := []Op{{Op: "qclose", Q: q}}
+	for i := 0; i < rapid.IntRange(0, 2).Draw(t, "nbetween"); i++ {
+		seq = append(seq, Op{Op: pick(t, "between", []string{"purge", "qpending", "qclose", "yield"}), Q: q})
+	}
+	n := 5000
+	for i := 0; i < rapid.IntRange(1, 3).Draw(t, "nafter"); i++ {
+		n++
+		if rapid.Bool().Draw(t, "afterbatch") {
+			g := 900 + i
+			seq = append(seq, Op{Op: "addall", Q: q, G: g, Items: []Item{{N: n, ID: "c" + itoa(n)}, {N: n + 100, ID: "c" + itoa(n+100)}, {N: n + 200, ID: "c" + itoa(n+200)}}})
+			for _, w := range []string{"gwait", "gconsume", "gpending"} {
+				if rapid.Bool().Draw(t, "after-"+w) {
+					seq = append(seq, Op{Op: w, G: g})
+				}
+			}
+		} else {
+			seq = append(seq, Op{Op: "add", Q: q, It: &Item{N: n}})
+		}
+	}
+	pos := rapid.IntRange(0, len(c.Clients[ci])).Draw(t, "closepos")
+	ops := append([]Op{}, c.Clients[ci][:pos]...)
+	ops = append(ops, seq...)
+	ops = append(ops, c.Clients[ci][pos:]...)
+	c.Clients[ci] = ops
 }
